@@ -63,6 +63,24 @@ def _extract():
         if not re.match(r'\{\s*unsigned\s+int\s+t\s*=\s*system_get_time\s*\(\s*\)\s*;', h): errs.append('relay_hi no longer samples the counter first')
         if not re.search(r'if\s*\(\s*rs_cfg->stop_time\s*==\s*0\s*\)\s*\{\s*rs_cfg->stop_time\s*=\s*t\s*;', h): errs.append('relay_hi stop stamp changed')
         if not re.search(r'if\s*\(\s*rs_cfg->start_time\s*==\s*0\s*\)\s*\{\s*rs_cfg->start_time\s*=\s*t\s*;', h): errs.append('relay_hi start stamp changed')
+    # loop bounds of the functions that decide "is this relay / channel part of a shutter" (routing theorems C08_routing_*):
+    # emitted as constants and tied to RELAY_MAX / RS_MAX by consts_facts, so a shortened loop breaks the proof as well
+    def bound(src, hdr, pat, name):
+        bd = _body(src, hdr)
+        m = re.search(pat, bd) if bd else None
+        if m: v[name] = int(m.group(1))
+        else: errs.append('loop shape of %s changed' % name)
+    bound(rs, r'supla_esp_gpio_get_rs__cfg\s*\(\s*int\s+port\s*\)\s*\{',
+          r'for\s*\(\s*a\s*=\s*0\s*;\s*a\s*<\s*(\d+)\s*;\s*a\+\+\s*\)\s*if\s*\(\s*supla_relay_cfg\[a\]\.gpio_id\s*==\s*port\s*\)', 'LOOKUP_PORT_RELAY_BOUND')
+    bound(rs, r'supla_esp_gpio_get_rs_cfg\s*\(\s*supla_relay_cfg_t\s*\*\s*rel_cfg\s*\)\s*\{',
+          r'for\s*\(\s*a\s*=\s*0\s*;\s*a\s*<\s*(\d+)\s*;\s*a\+\+\s*\)\s*if\s*\(\s*supla_rs_cfg\[a\]\.up\s*==\s*rel_cfg\s*\|\|\s*supla_rs_cfg\[a\]\.down\s*==\s*rel_cfg\s*\)', 'LOOKUP_RELAY_RS_BOUND')
+    bound(gp, r'char\s+supla_esp_gpio_relay_hi\s*\(\s*int\s+port\s*,\s*unsigned\s+char\s+hi\s*\)\s*\{',
+          r'for\s*\(\s*a\s*=\s*0\s*;\s*a\s*<\s*(\d+)\s*;\s*a\+\+\s*\)\s*\{\s*if\s*\(\s*supla_relay_cfg\[a\]\.gpio_id\s*==\s*port\s*\)', 'RELAYHI_RELAY_BOUND')
+    dc = _pp('supla_esp_devconn.c')
+    bound(dc, r'supla_esp_channel_set_value\s*\(\s*TSD_SuplaChannelNewValue\s*\*\s*new_value\s*\)\s*\{',
+          r'for\s*\(\s*a\s*=\s*0\s*;\s*a\s*<\s*(\d+)\s*;\s*a\+\+\s*\)\s*if\s*\(\s*supla_rs_cfg\[a\]\.up\s*!=\s*\(\(void\s*\*\)\s*0\)\s*&&\s*supla_rs_cfg\[a\]\.down\s*!=\s*\(\(void\s*\*\)\s*0\)\s*&&\s*supla_rs_cfg\[a\]\.up->channel\s*==\s*new_value->ChannelNumber\s*\)', 'SETVALUE_RS_BOUND')
+    bound(dc, r'supla_esp_channel_set_value\s*\(\s*TSD_SuplaChannelNewValue\s*\*\s*new_value\s*\)\s*\{',
+          r'for\s*\(\s*a\s*=\s*0\s*;\s*a\s*<\s*(\d+)\s*;\s*a\+\+\s*\)\s*if\s*\(\s*supla_relay_cfg\[a\]\.gpio_id\s*!=\s*255\s*&&\s*new_value->ChannelNumber\s*==\s*supla_relay_cfg\[a\]\.channel\s*\)', 'SETVALUE_RELAY_BOUND')
     g = _body(gp, r'void\s+supla_esp_gpio_init\s*\(\s*void\s*\)\s*\{')
     if not g or not re.search(r'supla_rs_cfg\[a\]\.stop_time\s*=\s*supla_esp_gpio_init_time\s*;', g): errs.append('gpio_init no longer stamps stop_time with the init time')
     return v, errs
@@ -129,7 +147,8 @@ _errs = _errs + _callsites()
 _pre = ('#include <stddef.h>\n#include <supla_esp.h>\n#include <supla_esp_gpio.h>\n#include <supla_esp_rs_fb.h>\n'
         + ''.join('#error RsSpacingConsts: %s\n' % e.replace('\n', ' ') for e in _errs))
 # (RS_ORDER_GUARD_* are computed for information only; they are not emitted so that the generated file is the same before/after the fix)
-_names = ['RS_DELAY_THRESHOLD', 'RS_SETTLE_US', 'RELAY_PRE_US', 'RELAY_RETRY_US', 'RELAY_POST_US']
+_names = ['RS_DELAY_THRESHOLD', 'RS_SETTLE_US', 'RELAY_PRE_US', 'RELAY_RETRY_US', 'RELAY_POST_US',
+          'LOOKUP_PORT_RELAY_BOUND', 'LOOKUP_RELAY_RS_BOUND', 'RELAYHI_RELAY_BOUND', 'SETVALUE_RS_BOUND', 'SETVALUE_RELAY_BOUND']
 
 G.GROUPS['RsSpacingConsts'] = dict(
     pre=_pre,
